@@ -110,9 +110,16 @@ func (e *Engine) verifyCase(key string, fd *ast.FuncDecl, c *FuncContract, pinne
 		if v.Name() == "_" || v.Name() == "" {
 			return
 		}
-		if lit, ok := ca.vals[v.Name()]; ok {
+		cname := v.Name()
+		if _, ok := ca.vals[cname]; !ok {
+			if old := e.aliasOld(key, cname); old != "" {
+				cname = old // the contract's `cases` clause still uses the recorded spelling of this parameter
+			}
+		}
+		if lit, ok := ca.vals[cname]; ok {
 			t := x.caseLit(lit, x.modeSort(scalarSort(v.Type())))
 			st.vars[v] = sc(t)
+			x.caseVals[cname] = t
 			x.caseVals[v.Name()] = t
 			return
 		}
